@@ -79,17 +79,21 @@ A2M_INS_LEMMAS = ('a2mRead_write_ins', 'a2mRead_writeLines_ins', 'a2mInsTextWrit
 
 
 STO_ANN_THEOREMS = ('stockholm_roundtrip_gc', 'stockholm_roundtrip_gr', 'stockholm_roundtrip_gs_partial', 'stockholm_roundtrip_full_partial',
-                    'exStoGc_writable', 'exStoGr_writable', 'exStoGs_writable')
+                    'exStoGc_writable', 'exStoGr_writable', 'exStoGs_writable', 'stockholm_ann_write_accepted', 'stockholm_ann_write_accepted_digital',
+                    'stockholm_ann_write_accepted_gen')
 READ_DOMAIN_THEOREMS = ('a2mCfg_valid_of', 'a2m_read_in_domain_digital', 'a2m_read_in_domain_text', 'a2m_reformat_idempotent_text', 'a2m_reformat_stable_digital',
                         'a2m_reformat_stable_digital_of_lines', 'a2m_reformat_stable_text', 'a2m_reformat_stable_text_of_lines', 'afaCfg_valid_of',
                         'afa_read_in_domain_digital', 'afa_read_in_domain_text', 'afa_reformat_stable_digital', 'afa_reformat_stable_digital_of_lines',
                         'afa_reformat_stable_text', 'afa_reformat_stable_text_of_lines', 'clustalCfg_valid_of', 'clustal_read_in_domain_digital',
                         'clustal_read_in_domain_text', 'clustal_reformat_stable_digital', 'clustal_reformat_stable_text', 'psiblastCfg_valid_of',
                         'psiblast_read_in_domain_digital', 'psiblast_read_in_domain_text', 'psiblast_reformat_stable_digital_partial',
-                        'psiblast_reformat_stable_text_partial')
+                        'psiblast_reformat_stable_text_partial', 'phylipCfg_valid_of', 'phylip_read_in_domain_digital', 'phylip_read_in_domain_text',
+                        'phylip_reformat_keeps_names', 'phylip_reformat_stable_digital', 'phylip_reformat_stable_text', 'phylips_reformat_stable_digital',
+                        'phylips_reformat_stable_text')
 READ_DOMAIN_LEMMAS = ('a2mRead_nd', 'a2mRead_domain_text', 'a2mRead_domain_digital', 'a2mHdrOkB_of_lines', 'afaRead_nd', 'afaRead_domain_text', 'afaRead_domain_digital',
                       'afaHdrOkB_of_lines', 'clustalRead_nd', 'clustalRead_domain_text', 'clustalRead_domain_digital', 'psiblastRead_nd', 'psiblastRead_domain_text',
-                      'psiblastRead_domain_digital')
+                      'psiblastRead_domain_digital', 'phylipRead_nd', 'phylipRead_domain_text', 'phylipRead_domain_digital', 'phylipRead_project_names', 'strtoi32_le',
+                      'wgtTokOk_of_nonneg')
 
 
 class C03(Prop):
@@ -136,9 +140,10 @@ class C03(Prop):
                   "REFORMAT STABILITY (`<fmt>_read_in_domain_*`, `<fmt>_reformat_stable_*`): for EVERY input the reader accepts, the alignment it returns lies in the writer's proved domain, so "
                   "read(write(read x)) = project(read x) - for A2M and aligned FASTA under the explicit side condition that no header line holds a bare CR/LF-adjacent byte (`a2mHdrOkB`, "
                   "`afaHdrOkB`; aligned FASTA text mode also `afaNoGtB`: no '>' residue), for Clustal under `cluNamesNeB` (no empty name) and the not-a-consensus-line condition, for "
-                  "PSI-BLAST partially (no lower-case residue); each side condition is shown necessary by a proved counter-example on the model (listed in DESIGN / the report). "
+                  "PHYLIP (both variants; names come back <= 10 graphic characters, nseq/alen <= 2^31-1 proved from esl_mem_strtoi32) under `phyNamesNeB` and, text mode, "
+                  "`phyRowsSymB` (the writer upper-cases), for PSI-BLAST partially (no lower-case residue); each side condition is shown necessary by a proved counter-example on the model (listed in DESIGN / the report). "
                   "NOT PROVED (monitors + executable models only): Stockholm/Pfam weights (#=GS WT; the reader model keeps set/unset only) and multi-line #=GS values; A2M with separate "
-                  "accessions; reformat stability for SELEX, PHYLIP, Stockholm; numeric VALUE of weights and cut-offs (the reader model keeps set/unset); autodetection of SELEX/PSI-BLAST/PHYLIP output.")
+                  "accessions; reformat stability for SELEX, Stockholm; numeric VALUE of weights and cut-offs (the reader model keeps set/unset); autodetection of SELEX/PSI-BLAST/PHYLIP output.")
     level_note = ("Lean models of ALL ten writers (incl. stockholm_write with margins, wrapping, unique-name forcing and exact printf %.2f/%.1f; PHYLIP with ESL_MSAFILE_FMTDATA namewidth/rpl) "
                   "and ten readers are compared byte for byte / field for field with the library on every case. printf/strtod of 2-/1-decimal weights and cut-offs is trusted "
                   "(cutoff_token_accepted proves that %.1f of any finite float is a token the cut-off parser accepts). Known finding C03:stockholm:first-mention-order: the Stockholm reader numbers "
